@@ -245,6 +245,12 @@ let run_exh kib limit _t0 _pct steps =
         lru := k :: List.filter (fun x -> x <> k) !lru;
         lru := List.filter has_pn !lru;
         Buffer.add_string b ("s" ^ stats ())
+    | ["F"; klen; _vlen; id] ->
+        (* fetch: one splice of the recency list, no block obtained or released (RFetch); the key moves to the front *)
+        let k = bytes_of_string (padded 'K' (int_of_string id) (-1) (int_of_string klen) 'k') in
+        r := rstep true (RFetch k) !r;
+        if has_pn k then begin lru := k :: List.filter (fun x -> x <> k) !lru; Buffer.add_string b "h1" end
+        else Buffer.add_string b "m"
     | ["D"; klen; id] ->
         let k = bytes_of_string (padded 'K' (int_of_string id) (-1) (int_of_string klen) 'k') in
         r := rstep true (RRemove k) !r; lru := List.filter has_pn !lru;
